@@ -301,7 +301,7 @@ func (r *refNode) fireTimers(now time.Time) {
 
 func (r *refNode) reap(now time.Time) {
 	for name, rec := range r.Recs {
-		if (rec.State == "dead" || rec.State == "left") && now.Sub(rec.Since) > r.cfg.GossipToTheDeadTime {
+		if name != r.Name && (rec.State == "dead" || rec.State == "left") && now.Sub(rec.Since) > r.cfg.GossipToTheDeadTime {
 			delete(r.Recs, name)
 			r.eff.Changed = true
 		}
@@ -325,6 +325,8 @@ type worldCfg struct {
 	Peers    int // background alive peers p1..pn
 	SuspMult int
 	Opts     []nodeOpt
+	Monitor  bool // attach the C07 event monitor
+	NoRefDiff bool
 }
 
 type world struct {
@@ -334,6 +336,7 @@ type world struct {
 	cfg   worldCfg
 	evIdx int
 	cfIdx int
+	mon   *c07mon
 }
 
 var (
@@ -378,11 +381,18 @@ func newWorld(b *bubble, wc worldCfg) *world {
 			c.CIDRsAllowed = nets
 		}
 	}}, wc.Opts...)
+	if wc.Monitor {
+		w.mon = &c07mon{set: map[string]string{}}
+		opts = append(opts, func(c *ml.Config) { c.Events.(*eventRec).hook = w.mon.onEvent })
+	}
 	n, err := newNode("o", ip4(1), opts...)
 	if err != nil {
 		panic(err)
 	}
 	w.o = b.track(n)
+	if w.mon != nil {
+		w.mon.m = n.M
+	}
 	n.D.SetMeta([]byte("om0"))
 	// the reference starts from the node's own bootstrap alive
 	w.ref = &refNode{Name: "o", OwnInc: 1, Recs: map[string]*refRec{}, Queue: map[string]string{}, cfg: n.Cfg, NumNodes: 1}
@@ -548,10 +558,10 @@ func (w *world) apply(e cev) *stepObs {
 		go func() { done <- o.M.UpdateNode(2 * time.Second) }()
 		settle()
 		w.drainUntil(done, ob)
-		w.ref.alive("o", w.ref.OwnInc+1, w.ref.Recs["o"].IP, w.ref.Recs["o"].Port, e.Meta, o.Cfg.BuildVsnArray(), true, now)
-		if !w.ref.Left {
-			w.ref.Queue = map[string]string{}
-		}
+		w.ref.OwnInc++ // UpdateNode always takes the next incarnation, even if the claim is then ignored
+		w.ref.alive("o", w.ref.OwnInc, w.ref.Recs["o"].IP, w.ref.Recs["o"].Port, e.Meta, o.Cfg.BuildVsnArray(), true, now)
+		w.ref.Queue = map[string]string{}
+		w.ref.fireTimers(time.Now()) // only if the call needed its timeout (virtual time passed)
 	case "leave":
 		done := make(chan error, 1)
 		go func() { done <- o.M.Leave(2 * time.Second) }()
@@ -562,8 +572,9 @@ func (w *world) apply(e cev) *stepObs {
 			if me, ok := w.ref.Recs["o"]; ok {
 				w.ref.dead("o", me.Inc, "o", now)
 			}
-			w.ref.Queue = map[string]string{}
 		}
+		w.ref.Queue = map[string]string{}
+		w.ref.fireTimers(time.Now())
 	case "reap":
 		o.M.VResetNodes()
 		w.ref.reap(now)
@@ -863,15 +874,15 @@ func (sc *swimCheck) bfs(t *testing.T, rep *Report, cfgName string) {
 					}
 					rep.Transitions++
 					rep.Outcome(e.K)
-					if d := w.diffRef(ob); d != "" {
-						vsig, vmsg = "ref-divergence:"+e.K, d
-						return false
-					}
 					if sc.oracle != nil {
 						if sg, m := sc.oracle(w, e, ob); sg != "" {
 							vsig, vmsg = sg, m
 							return false
 						}
+					}
+					if d := w.diffRef(ob); d != "" {
+						vsig, vmsg = "ref-divergence:"+e.K, d
+						return false
 					}
 					key = w.canonKey()
 					if ob.Before != nil && key != "" && w.ref.eff.Changed {
